@@ -27,16 +27,31 @@ MERGE_FILES = ["ZapProofs/Props/C05.lean", "ZapProofs/Props/C06.lean", "ZapProof
 
 PROPS = {
     "C01": _p([{"gen": "C01"}, {"gen": "ENC", "seed_offset": 7}, {"gen": "C01", "vectors": True, "seed_offset": 13}],
-              ["ZapProofs.Props.C01Build", "ZapProofs.Props.C07"],
-              ["Zap.C01_fieldTable", "Zap.C01_entries_all", "Zap.C01_termsSorted", "Zap.C01_empty", "Zap.C07_run"],
-              BUILD_FILES + POST_FILES),
-    "C02": _p([{"gen": "C02"}], ["ZapProofs.Props.C02"],
-              ["Zap.C02_stored", "Zap.C02_beyond", "Zap.C02_stop", "Zap.C02_docID", "Zap.C02_count",
-               "Zap.C02_docNumbers", "Zap.C02_maxkey_shortcut_sound"], STORED_FILES),
-    "C03": _p([{"gen": "C03"}], ["ZapProofs.Props.C03"],
+              ["ZapProofs.Props.C01", "ZapProofs.Props.C01Build", "ZapProofs.Props.C07", "ZapProofs.Props.Codec"],
+              ["Zap.C01_postings", "Zap.C01_modes", "Zap.C01_postings_all_modes", "Zap.C01_absent_field", "Zap.C01_absent_term",
+               "Zap.C01_postings_ascending", "Zap.C01_postings_docs",
+               "Zap.C01_fieldTable", "Zap.C01_entries_all", "Zap.C01_termsSorted", "Zap.C01_empty", "Zap.C07_run",
+               "Zap.Props.Codec.uvarint_putUvarint", "Zap.Props.Codec.uvarints_putUvarints", "Zap.Props.Codec.numUvarintBytes_eq",
+               "Zap.Props.Codec.intcoder_roundtrip", "Zap.Props.Codec.intcoder_reuse", "Zap.Props.Codec.chunk_slice",
+               "Zap.Props.Codec.freqHasLocs_roundtrip", "Zap.Props.Codec.getChunkSize_pos", "Zap.Props.Codec.getChunkSize_ok_of_valid",
+               "Zap.Props.Codec.chunk_index_lt", "Zap.Props.Codec.memRead_put", "Zap.Props.Codec.memSkip_put"],
+              BUILD_FILES + POST_FILES + CODEC_FILES + ["ZapProofs/Props/C01.lean", "ZapProofs/ComposeLemmas.lean"]),
+    "C02": _p([{"gen": "C02"}], ["ZapProofs.Props.C02", "ZapProofs.Props.C02Full", "ZapProofs.Props.C01Build"],
+              ["Zap.C02_stored", "Zap.C02_beyond", "Zap.C02_stop", "Zap.C02_docID", "Zap.C02_docID_id", "Zap.C02_count",
+               "Zap.C02_docNumbers_full", "Zap.C02_docNumbers_full_spec", "Zap.C02_maxkey_shortcut_sound", "Zap.C01_fieldTable"],
+              STORED_FILES + ["ZapProofs/Props/C02Full.lean", "ZapProofs/ComposeLemmas.lean"]),
+    "C03": _p([{"gen": "C03"}], ["ZapProofs.Props.C03", "ZapProofs.Props.C03Full", "ZapProofs.Props.Codec"],
               ["Zap.C03_fresh_visit", "Zap.C03_visit_any_order", "Zap.C03_visit_sequence", "Zap.C03_reader_invariant",
-               "Zap.C03_dvFieldNames", "Zap.C03_content", "Zap.C03_visit_built"], DV_FILES + STORED_FILES),
-    "C04": _p([{"gen": "C04"}, {"gen": "C04", "vectors": True, "seed_offset": 13}], [], []),
+               "Zap.C03_dvFieldNames", "Zap.C03_content_full", "Zap.C03_visit_built_full", "Zap.Props.Codec.content_roundtrip"],
+              DV_FILES + STORED_FILES + ["ZapProofs/Props/C03Full.lean", "ZapProofs/CodecLemmasContent.lean"]),
+    "C04": _p([{"gen": "C04"}, {"gen": "C04", "vectors": True, "seed_offset": 13}],
+              ["ZapProofs.Props.C04", "ZapProofs.Props.Codec"],
+              ["Zap.C04.open_recovers_init_args", "Zap.C04.footer_crc_is_crc_of_all_preceding_bytes", "Zap.C04.persistFooter_crc",
+               "Zap.C04.mem_recovered", "Zap.C04.persist_eq_writeTo", "Zap.C04.persist_is_persistBytes",
+               "Zap.C04.persistSegmentBase_calls_toWriter", "Zap.C04.toWriter_shape", "Zap.C04.persistFooter_shape",
+               "Zap.Props.Codec.footer_roundtrip", "Zap.Props.Codec.footer_layout", "Zap.Props.Codec.footer_size",
+               "Zap.Props.Codec.crcUpdate_append"],
+              CODEC_FILES + ["ZapProofs/Props/C04.lean"]),
     "C05": _p([{"regress": "d3_zero_survivors.script"}, {"gen": "C05"}], ["ZapProofs.Props.C05"],
               ["Zap.remapSeg_spec", "Zap.remapAll_spec", "Zap.newDocCount_eq", "Zap.C05_consecutive", "Zap.C05_bijection",
                "Zap.C05_count", "Zap.C05_maps", "Zap.C05_zero", "Zap.C05_stored", "Zap.mergedFieldNames_spec",
